@@ -156,9 +156,9 @@ Print Assumptions C04_wrapper.
 (* ================================================================================================ *)
 (* Examples: the hypotheses are satisfiable on the generated tables, and F15 on the real tables     *)
 
-Definition T25 := Gen.Tables_v2_5.tables.
-Definition e25 : ec := mk_ec "|" "^" "~" "\" "&" None.
-Definition lenc25 := leaf_enc "2.5" TOLERANT e25.
+Local Notation T25 := Gen.Tables_v2_5.tables.
+Local Notation e25 := (mk_ec "|" "^" "~" "\" "&" None).
+Local Notation lenc25 := (leaf_enc "2.5" TOLERANT (mk_ec "|" "^" "~" "\" "&" None)).
 
 (* a parsed PID segment is linked, conforms, and validates *)
 Example C04_example_segment :
@@ -177,7 +177,7 @@ Example C04_example_missing :
   end.
 Proof. vm_compute. split; reflexivity. Qed.
 
-Definition msh25 (mt : str) : str := "MSH|^~\&|A|B|C|D|20200101||" ++ mt ++ "|1|P|2.5".
+Local Notation msh25 mt := ("MSH|^~\&|A|B|C|D|20200101||" ++ mt ++ "|1|P|2.5").
 
 (* a required-only ADT_A01 message is linked and validates *)
 Example C04_example_message :
